@@ -749,7 +749,11 @@ static Reg r_cddat("cddat", [](const Args& a) {
   emit(hx(dd) + " " + hx(am));
   c11::Ell E(1, f); const double kp = kappa(f);
   // (the two numerical-range defects of DDatanhee2: cancellation for e^2 < -3, overflow of 1/(1 - e^2)^m against underflow of (1 - x)^m for 1 - e^2 < 1e-3)
-  { double lo = std::fmin(x, y), e2 = e2of(f); cur_tag() = (e2 < -3 && lo > 0 && std::fabs(2 * std::sqrt(-e2) / (1 - e2) * (1 - lo)) < 0.75) ? " [class:albers-prolate-ddatanhee2]" : (1 - e2 < 1e-3 && lo > 0) ? " [class:albers-oblate-ddatanhee2-overflow]" : ""; }
+  // overflow: DDatanhee2 selected (q2 < 3/4 <= q1) and the M = 16/log10(1/q2) terms it needs drive 1/(1 - e^2)^(M+2) or (1 - x)^M out of range
+  { double lo = std::fmin(x, y), e2 = e2of(f), q2 = std::fabs(2 * std::sqrt(std::fabs(e2)) / (1 - e2) * (1 - lo));
+    bool sel2 = lo > 0 && q2 < 0.75 && !(std::fabs(e2) < q2);
+    bool over = sel2 && e2 > 0 && (16 / -std::log10(q2) + 2) * std::fmax(-std::log10(1 - e2), -std::log10(1 - lo)) > 250;
+    cur_tag() = (e2 < -3 && sel2) ? " [class:albers-prolate-ddatanhee2]" : over ? " [class:albers-oblate-ddatanhee2-overflow]" : ""; }
   // atanhxm1 (x < 1)
   if (std::isfinite(xm) && xm < 1 && std::fabs(xm) > 1e-300) {
     Q X = xm, r = sqrtq(fabsq(X)), w = fabsq(X) < Q(1e-9) ? X / 3 + X * X / 5 + X * X * X / 7 : (X > 0 ? atanhq(r) : atanq(r)) / r - 1;
